@@ -278,6 +278,43 @@ def run(ctx):
                                       {"kind": "blackbox", "args": args, "flags": list(flags), "env": env, "package": dpk,
                                        "only_in_reference": only_ref, "only_in_this_run": only_run})
                     break
+    # (d) a go.work workspace with two independent modules: the diagnostics of each module do not depend on the other being in the run
+    ws = os.path.join(ctx.scratch, "ws")
+    wsfiles = {
+        "go.work": "go 1.25\n\nuse (\n\t./alpha\n\t./beta\n)\n",
+        "alpha/go.mod": "module example.com/alpha\n\ngo 1.25\n",
+        "alpha/a/a.go": "package a\n\n// T is immutable.\n// @immutable\ntype T struct{ X int }\n\nfunc Bump(t *T) {\n\tt.X += 1\n}\n",
+        "beta/go.mod": "module example.com/beta\n\ngo 1.25\n",
+        "beta/b/b.go": "package b\n\n// C has a constructor.\n// @constructor NewC\ntype C struct{ X int }\n\nfunc NewC() *C { return &C{} }\n\nfunc Rogue() C {\n\treturn C{X: 1}\n}\n",
+    }
+    for name, src in wsfiles.items():
+        os.makedirs(os.path.dirname(os.path.join(ws, name)), exist_ok=True)
+        open(os.path.join(ws, name), "w").write(src)
+
+    def wsrun(args, env_extra=None):
+        e = vlib.go_env(env_extra)
+        e.pop("GOFLAGS", None)          # -mod=mod is not allowed in workspace mode; nothing needs to be fetched
+        r = subprocess.run([exe, "-json"] + args, cwd=ws, env=e, stdout=subprocess.PIPE, stderr=subprocess.PIPE, text=True, timeout=300)
+        ds, errs = proglib.parse_json_tree(r.stdout, ws)
+        if errs or vlib.crashed(r.stderr) or r.returncode != 0:
+            return None, (str(errs) or r.stderr)[:500]
+        return by_pkg(proglib.dedup(ds)), None
+    ref = {}
+    for mod in ("alpha", "beta"):
+        got, fail = wsrun(["./%s/..." % mod])
+        if fail or not got or not got.get(mod):
+            raise vlib.ToolError("workspace module %s alone: %s %s" % (mod, fail, got))
+        ref[mod] = got[mod]
+    for args, env_extra in ((["./alpha/...", "./beta/..."], None), (["./beta/...", "./alpha/..."], None), (["./alpha/...", "./beta/..."], {"GOMAXPROCS": "1"}),
+                            (["./beta/...", "./alpha/..."], {"GOMAXPROCS": "1"})) + ((["./alpha/...", "./beta/..."], None),) * (6 if thorough else 2):
+        got, fail = wsrun(args, env_extra)
+        nrun += 1
+        if (fail or any(got.get(m, set()) != ref[m] for m in ref)) and len(ctx.violations) < 3:
+            ctx.violation("go.work workspace with two modules, arguments %s env=%s: %s; each module analysed alone reports %s"
+                          % (args, env_extra, fail or {m: sorted(x[:3] for x in got.get(m, set())) for m in ref},
+                             {m: sorted(x[:3] for x in ref[m]) for m in ref}),
+                          {"kind": "workspace", "args": args, "env": env_extra})
+
     return ctx.finish("model_checking", {
         "traces_validated_against_impl": nrun,
         "samples": samples or [{"note": "see violations"}],
